@@ -673,6 +673,11 @@ class Sim:
         except OSError:
             pass
         self.clock.close()
+        if getattr(self, "keep_log", False):
+            self.final_log = shim.read_log(self.logfile)
+        if not os.environ.get("NQV_KEEP_HOMES"):
+            import shutil
+            shutil.rmtree(self.home, ignore_errors=True)
 
     def _drain_safe(self):
         try:
